@@ -79,9 +79,9 @@ def order_rules(r, R):
             for x in cs.node["args"]:
                 if is_mut_ref(arg_ty(b, x)):
                     p = mir.op_place(x)
-                    if p is not None and b.through_ref(p)["l"] == acc and not b.through_ref(p)["p"] and cname(cs.node) != "std::string::String::push_str":
+                    if p is not None and b.through_ref(p)["l"] == acc and not b.through_ref(p)["p"] and cname(cs.node) not in ("std::string::String::push_str", "std::fmt::Write::write_fmt"):
                         bad.append(cs)
-        r.ob("R9.1.append-only-output", "%s: accumulator _%d" % (fn, acc), not bad, "only modified by push_str" if not bad else
+        r.ob("R9.1.append-only-output", "%s: accumulator _%d" % (fn, acc), not bad, "only modified by push_str / write!" if not bad else
              "also modified by %s" % [cname(x.node) for x in bad], site=(bad or [None])[0], key="R9.1|acc|%s" % ("main" if acc == R.main else "child"))
 
 
@@ -202,10 +202,14 @@ def sort_rules(r, R):
                         alts.add(v)
             clo = arg_ty(b, cs.node["args"][1]).get("closure") if len(cs.node["args"]) > 1 else None
             fields, ccalls = _closure_reads(R.lib, clo)
+            plain = {"necessity::Necessity::inner_t", "std::string::ToString::to_string", "std::clone::Clone::clone", "std::ops::Deref::deref"}
+            extra = sorted(set(ccalls) - plain)
             if what == "attributes":
                 key = "name" if ("necessity::Necessity::inner_t" in ccalls and any("to_string" in c or "clone" in c for c in ccalls) and not fields) else "?"
             else:
                 key = "name" if fields == {"name"} else "position" if fields == {"position"} else "+".join(sorted(fields)) or "?"
+            if extra:
+                key = "%s transformed by %s" % (key, ",".join(x.split("::")[-1] for x in extra))
             for a in alts or {"<unconditional>"}:
                 seen[a] = key
             r.ob("R9.2.sort-key", "%s: %s sorted under %s" % (fn, what, "/".join(sorted(alts)) or "no option test"),
